@@ -1443,6 +1443,16 @@ def fld(o, path):
 def enc_nlri(ctx, kind, x, afi, safi, fields=(), action=Action.ANNOUNCE, addpath=False):
     afi, safi = AFI.from_int(afi), SAFI.from_int(safi)
     neg = session(addpath)
+    # a route is packed once per session it is sent on; what it IS (index, equality) is not a function of where it was sent:
+    # pack it for a session with ADD-PATH and for one without before anything is looked at
+    try:
+        idx0 = B(ctx, x.index())
+        for other in (True, False):
+            x.pack_nlri(session(other))
+        chk(ctx, 'packing-leaves-the-route-unchanged', sx_eq(B(ctx, x.index()), idx0), 'C15:enc:nlri:%s:index-changes-once-packed' % kind,
+            lambda: {'before': idx0, 'after': x.index()})
+    except Exception as exc:
+        ctx.check('packing-leaves-the-route-unchanged', False, sig='C15:enc:nlri:%s:pack-for-another-session-raises' % kind, info={'raised': '%s %s' % (type(exc).__name__, str(exc)[:160])})
     out = B(ctx, x.pack_nlri(neg))
     ctx.cover('encoded')
     try:
